@@ -522,8 +522,11 @@ func (c *Case) realObs(sp *syncPair) *syncObs {
 func (c *Case) classifyUnexpectedTask(w *MWorker, obs *syncObs) (string, []string, string) {
 	for _, t := range c.M.Tasks {
 		if obs.Hash == t.Hash && obs.QueuedTS.Equal(t.QueuedTS) && !t.Completed && (t.Worker == nil || t.Worker == w) && t.scq() == w.SCQ {
-			if obs.DNC != (t.DoNotCache || t.Background) && obs.DNC == t.DoNotCache && t.Background {
-				return "background-learning-task-is-cacheable", []string{"C07"}, "a background learning task was handed out without do_not_cache"
+			if obs.DNC != (t.DoNotCache || t.Background) && obs.Timeout == t.Timeout {
+				if t.Background {
+					return "background-learning-task-is-cacheable", []string{"C07"}, "a background learning task was handed out without do_not_cache"
+				}
+				return "do-not-cache-flag-differs", []string{"C03"}, fmt.Sprintf("%s was handed out with do_not_cache=%v", taskStr(t), obs.DNC)
 			}
 			if obs.DNC == (t.DoNotCache || t.Background) && obs.Timeout != t.Timeout {
 				return "action-timeout-differs", []string{"C07"}, fmt.Sprintf("%s was handed out with timeout %s, the size-class analyzer chose %s", taskStr(t), obs.Timeout, t.Timeout)
